@@ -632,6 +632,85 @@ def union_cases(ctx: Ctx, n: int):
             ctx.violation("correspondence", "Lean sigUnion differs from signature_union (as a set)", case)
 
 
+def wrapper_cases(ctx: Ctx, n: int):
+    """the wrapper model classes also map their input signature to the requested output signature:
+    Climate1D around a conventional 1-D network (unequal scalar / pseudo-scalar / vector counts),
+    ModelWrapper around the identity, GroupAverage around a conventional network.  Oracle only
+    (their values are property C10)."""
+    import equinox as eqx
+    import jax.random as random
+
+    import ginjax.geometric as geom
+    import ginjax.ml as ml  # noqa: F401
+    import ginjax.models as models
+
+    rng = ctx.rng
+    D = 2
+    key = random.PRNGKey(ctx.seed + 5)
+    for it in range(n):
+        cs, cp, cv = (int(v) for v in rng.integers(1, 4, size=3))
+        if it == 0:
+            cs, cp, cv = 2, 1, 1
+        past = int(rng.integers(1, 3))
+        lons, lats = int(rng.choice([4, 6, 8])), int(rng.choice([3, 4, 5]))
+        keys = geom.Signature((((0, 0), cs * past), ((0, 1), cp * past), ((1, 0), cv * past)))
+        order = [int(i) for i in rng.permutation(3)]
+        data = {}
+        for i in order:
+            (k, p), c = keys[i]
+            key, sub = random.split(key)
+            data[(k, p)] = random.normal(sub, shape=(c, lons, lats) + (D,) * k)
+        x = geom.MultiImage(data, D, (True, False))
+        out_keys = geom.Signature((((0, 0), cs), ((0, 1), cp), ((1, 0), cv)))
+        case = {"kind": "wrapper", "class": "Climate1D", "counts": [cs, cp, cv], "past_steps": past, "dims": [lons, lats],
+                "input_order": [list(keys[i][0]) for i in order]}
+        ctx.case(("wrapper", "climate", cs, cp, cv, past, lons, lats, order), len({cs, cp, cv}) > 1,
+                 sample=case if it == 0 else None)
+        ctx.hist("wrapper", "Climate1D")
+        try:
+            k1_in = models.Climate1D.get_1d_signature(keys, lats)
+            k1_out = models.Climate1D.get_1d_signature(out_keys, lats)
+            inner = models.ResNet(1, k1_in, k1_out, depth=4, num_blocks=1, equivariant=False, kernel_size=3, key=key)
+            net = models.Climate1D(inner, out_keys, past, 1, (lons, lats), {}, (True, False))
+            out = net(x)[0]
+            got = (tuple(out.get_signature()), tuple(out.get_spatial_dims()), out.D, tuple(out.is_torus))
+        except Exception as e:  # noqa: BLE001
+            case["raised"] = repr(e)[:300]
+            ctx.violation("oracle", "Climate1D raised on a valid configuration", case)
+            continue
+        want = (tuple(out_keys), (lons, lats), D, (True, False))
+        if got != want:
+            case["impl"] = str(got); case["expected"] = str(want)
+            ctx.violation("oracle", "Climate1D does not return the requested output signature / extents / flags", case)
+    # ModelWrapper around the identity and GroupAverage around it: signature in requested order
+    for it in range(max(2, n // 2)):
+        types = [(0, 0), (1, 0), (0, 1), (1, 1), (2, 0)]
+        sel = [types[int(i)] for i in rng.permutation(len(types))[: int(rng.integers(1, 4))]]
+        sig = geom.Signature(tuple((t, int(rng.integers(1, 3))) for t in sel))
+        dims = (int(rng.choice([3, 4])), int(rng.choice([4, 5])))
+        flags = (bool(rng.integers(2)), bool(rng.integers(2)))
+        data = {}
+        for (k, p), c in sig:
+            key, sub = random.split(key)
+            data[(k, p)] = random.normal(sub, shape=(c,) + dims + (D,) * k)
+        x = geom.MultiImage(data, D, flags)
+        case = {"kind": "wrapper", "class": "ModelWrapper/GroupAverage", "signature": jsig(sig), "dims": list(dims), "torus": list(flags)}
+        ctx.case(("wrapper", "mw", jsig(sig), dims, flags), len(sel) > 1)
+        ctx.hist("wrapper", "ModelWrapper")
+        try:
+            mw = models.ModelWrapper(D, eqx.nn.Identity(), sig, flags)
+            out = mw(x)[0]
+            ga = models.GroupAverage(mw, [np.eye(2, dtype=int), np.diag([1, -1])], always_average=True)
+            out2 = ga(x)[0]
+            ok = all((tuple(o.get_signature()), tuple(o.get_spatial_dims()), o.D, tuple(o.is_torus)) ==
+                     (tuple(sig), dims, D, flags) for o in (out, out2))
+        except Exception as e:  # noqa: BLE001
+            case["raised"] = repr(e)[:300]
+            ok = False
+        if not ok:
+            ctx.violation("oracle", "ModelWrapper / GroupAverage do not return the requested signature / extents / flags", case)
+
+
 def replay(ctx: Ctx, rep: dict):
     """re-run the single case stored in a replay file"""
     import ginjax.geometric as geom
@@ -695,6 +774,7 @@ def run(ctx: Ctx):
     log(f"[C20] layer cases done at {time.time() - t0:.0f}s")
     scalar_cases(ctx, 12 if quick else 200)
     union_cases(ctx, 20 if quick else 400)
+    wrapper_cases(ctx, 4 if quick else 40)
     for cfg in fixed_models(ctx):
         model_case(ctx, cfg)
     n_rand = 10 if quick else 290
